@@ -584,7 +584,7 @@ def describe(r):
     if not evs:
         return "no event"
     e = evs[0]
-    return "%s :: %s" % (e["sig"], e["msg"][:400])
+    return "%s :: %s" % (e["sig"], " ".join(e["msg"][:400].split()))
 
 
 def triage(binary, prop, st, fl):
